@@ -53,6 +53,7 @@ package balanced
 import (
 	"errors"
 
+	dag "github.com/ipfs/boxo/ipld/merkledag"
 	ft "github.com/ipfs/boxo/ipld/unixfs"
 	h "github.com/ipfs/boxo/ipld/unixfs/importer/helpers"
 	ipld "github.com/ipfs/go-ipld-format"
@@ -146,6 +147,16 @@ func Layout(db *h.DagBuilderHelper) (ipld.Node, error) {
 	}
 
 	if db.HasFileAttributes() {
+		if raw, ok := root.(*dag.RawNode); ok {
+			// A file that fits in a single raw leaf has no UnixFS node to hold
+			// the mode/mtime: store the chunk in a UnixFS leaf node instead.
+			leaf := db.NewFSNodeOverDag(ft.TFile)
+			leaf.SetFileData(raw.RawData())
+			root, err = leaf.Commit()
+			if err != nil {
+				return nil, err
+			}
+		}
 		err = db.SetFileAttributes(root)
 		if err != nil {
 			return nil, err
